@@ -139,7 +139,10 @@ impl WelcomeStorage for MdkSqliteStorage {
                 .map_err(into_welcome_err)?;
 
             let welcomes_iter = stmt
-                .query_map(params![limit as i64, i64::try_from(offset).unwrap_or(i64::MAX)], db::row_to_welcome)
+                .query_map(
+                    params![limit as i64, i64::try_from(offset).unwrap_or(i64::MAX)],
+                    db::row_to_welcome,
+                )
                 .map_err(into_welcome_err)?;
 
             let mut welcomes: Vec<Welcome> = Vec::new();
